@@ -304,7 +304,9 @@ pub enum ROp {
     /// A fixed-size record type of the library itself (`ReadFixedSizeDep`), read from an
     /// all-zero buffer of `declared size + extra` bytes: the declared size must be what the
     /// specification says and exactly what a successful read consumes.
-    /// which: 0 ValueRecord(a), 1 PairValueRecord(a, b), 2 Class2Record(a, b), 3 Class1Record(n; a, b)
+    /// which: 0 ValueRecord(a), 1 PairValueRecord(a, b), 2 Class2Record(a, b), 3 Class1Record(n; a, b),
+    /// 4 ScriptRecord, 5 FeatureRecord, 6 LangSysRecord, 7 SbitLineMetrics, 8 BigGlyphMetrics, 9 BitmapSize,
+    /// 10 SVGDocumentRecord, 11 VariationRegion(n axes), 12 AxisValue
     LibRecord { which: u8, a: u16, b: u16, n: u8, extra: u8 },
 }
 
@@ -1084,33 +1086,51 @@ fn step<'w>(sim: &mut Sim<'w>, op: &ROp, cov: &mut BTreeSet<String>) -> Result<S
             let sz = |raw: u16| 2 * (raw & 0x00FF).count_ones() as usize;
             let (fa, fb) = (vf(*a)?, vf(*b)?);
             let n = usize::from(*n);
+            // sizes per the OpenType specification
             let model = match which {
                 0 => sz(*a),
                 1 => 2 + sz(*a) + sz(*b),
                 2 => sz(*a) + sz(*b),
-                _ => n * (sz(*a) + sz(*b)),
+                3 => n * (sz(*a) + sz(*b)),
+                4 | 5 | 6 => 6,   // Tag + Offset16
+                7 => 12,          // SbitLineMetrics
+                8 => 8,           // BigGlyphMetrics
+                9 => 48,          // BitmapSize
+                10 => 12,         // SVG document record
+                11 => 6 * n,      // VariationRegion: axisCount x 3 F2Dot14
+                _ => 6,           // AxisValue: uint16 + Fixed
             };
             let buf = vec![0u8; model + usize::from(*extra)];
             let scope = ReadScope::new(&buf);
             let mut ctxt = scope.ctxt();
             cov.insert(format!("LibRecord|{}|{}|{}", which, (*a & 0xFF).count_ones(), extra.min(&1)));
+            use allsorts::bitmap::cbdt::{BigGlyphMetrics, BitmapSize, SbitLineMetrics};
+            use allsorts::layout::{FeatureRecord, LangSysRecord, ScriptRecord};
+            use allsorts::tables::svg::SVGDocumentRecord;
+            use allsorts::tables::variable_fonts::stat::AxisValue;
+            use allsorts::tables::variable_fonts::VariationRegion;
+            macro_rules! rec {
+                ($t:ty, $args:expr) => {
+                    (
+                        <$t as ReadFixedSizeDep>::size($args),
+                        ctxt.read_dep::<$t>($args).map(drop).map_err(|e| format!("{:?}", e)),
+                    )
+                };
+            }
             let (declared, res): (usize, Result<(), String>) = match which {
-                0 => (
-                    <ValueRecord as ReadFixedSizeDep>::size((scope, fa)),
-                    ctxt.read_dep::<ValueRecord>((scope, fa)).map(drop).map_err(|e| format!("{:?}", e)),
-                ),
-                1 => (
-                    <PairValueRecord as ReadFixedSizeDep>::size((scope, fa, fb)),
-                    ctxt.read_dep::<PairValueRecord>((scope, fa, fb)).map(drop).map_err(|e| format!("{:?}", e)),
-                ),
-                2 => (
-                    <Class2Record as ReadFixedSizeDep>::size((scope, fa, fb)),
-                    ctxt.read_dep::<Class2Record>((scope, fa, fb)).map(drop).map_err(|e| format!("{:?}", e)),
-                ),
-                _ => (
-                    <Class1Record as ReadFixedSizeDep>::size((scope, n, fa, fb)),
-                    ctxt.read_dep::<Class1Record>((scope, n, fa, fb)).map(drop).map_err(|e| format!("{:?}", e)),
-                ),
+                0 => rec!(ValueRecord, (scope, fa)),
+                1 => rec!(PairValueRecord, (scope, fa, fb)),
+                2 => rec!(Class2Record, (scope, fa, fb)),
+                3 => rec!(Class1Record, (scope, n, fa, fb)),
+                4 => rec!(ScriptRecord, scope),
+                5 => rec!(FeatureRecord, scope),
+                6 => rec!(LangSysRecord, scope),
+                7 => rec!(SbitLineMetrics, ()),
+                8 => rec!(BigGlyphMetrics, ()),
+                9 => rec!(BitmapSize<'_>, scope),
+                10 => rec!(SVGDocumentRecord<'_>, scope),
+                11 => rec!(VariationRegion<'_>, n as u16),
+                _ => rec!(AxisValue, n as u16),
             };
             if declared != model {
                 return Err(format!(
@@ -1125,10 +1145,14 @@ fn step<'w>(sim: &mut Sim<'w>, op: &ROp, cov: &mut BTreeSet<String>) -> Result<S
                     which, a, b, consumed, model
                 )),
                 Ok(()) => Ok(format!("librecord {} {}", which, model)),
-                Err(e) => Err(format!(
+                // records 0-3 and the plain metric records read nothing but their own fields, so
+                // they must succeed when the declared bytes are there; the others follow offsets
+                // into the (all-zero) scope and may fail for reasons of their own
+                Err(e) if matches!(which, 0 | 1 | 2 | 3 | 7 | 8 | 11) => Err(format!(
                     "library record {} with formats {:#06x}/{:#06x} failed ({}) although its {} declared bytes are available",
                     which, a, b, e, model
                 )),
+                Err(_) => Ok(format!("librecord {} err", which)),
             }
         }
         ROp::ArrSearch { a, pick, delta } => {
@@ -1453,7 +1477,7 @@ pub fn generate(seed: u64, run: u64, exact: bool) -> ReaderTrace {
                 delta: *rng.pick(&[0i8, 0, 0, 1, -1, 100, -100]),
             },
             _ => ROp::LibRecord {
-                which: rng.below(4) as u8,
+                which: if rng.pct(60) { rng.below(4) as u8 } else { rng.below(13) as u8 },
                 a: if rng.pct(50) { 1 << rng.below(8) } else { rng.below(256) as u16 },
                 b: if rng.pct(50) { 1 << rng.below(8) } else { rng.below(256) as u16 },
                 n: rng.below(5) as u8,
